@@ -13,6 +13,7 @@ evaluated directly on the implementation):
                 _cspline_resample3d / (matrix, offset) handed to affine_transform,
                 four voxel/world flag combinations, short-cut predicate.
   volumeimg     VolumeImg.as_volume_img / values_in_world / xyz_ordered / _swapaxes.
+  xyz_loop      axis-swap while loop of VolumeImg.xyz_ordered: recorded _swapaxes calls vs ModelSwap.swap_loop.
   realign4d     scanner_coords, Realign4dAlgorithm.resample_full_data identity.
 
 All exact cases live on an exact-arithmetic island: signed permutations,
@@ -1033,7 +1034,7 @@ def sec_xyz_loop(ck, T):
         A2 = aff2[:3, :3]
         rep = dict(rep, swapaxes_calls=[c[:2] for c in calls], affine_after_loop=aff2.tolist())
         # ---- direct oracles
-        if any(c[0] != c[1] + 1 for c in calls):
+        if any(abs(c[0] - c[1]) != 1 for c in calls):
             ck.fail("xyz_ordered/swap-loop/non-adjacent-swap", "xyz_ordered swapped a non-adjacent axis pair", rep)
         if len(calls) != ninv:
             ck.fail("xyz_ordered/swap-loop/number-of-swaps", "xyz_ordered made %d axis swaps, the axis order has %d inversions" % (len(calls), ninv), rep)
@@ -1054,7 +1055,7 @@ def sec_xyz_loop(ck, T):
         if sorted(rd.shape) != sorted(sshape) or not np.array_equal(np.sort(rd.ravel()), data.ravel()):
             ck.fail("xyz_ordered/swap-loop/result-values", "xyz_ordered result does not hold the input values", rep)
         # ---- model (exact)
-        trace = [c[1] if c[0] == c[1] + 1 else 99 for c in calls]
+        trace = [min(c[0], c[1]) if abs(c[0] - c[1]) == 1 else 99 for c in calls]     # _swapaxes is symmetric in its arguments
         T.add("xyz_loop_agrees %s %s %s %s" % (cqm(A.T), clist([cnat(k) for k in trace]), cqm(A2.T), clist([cnat(a) for a in axes])),
               "model-vs-impl/xyz_ordered/swap-loop", "trace of _swapaxes calls / affine columns / data axes after the loop differ from ModelSwap.swap_loop",
               dict(rep, data_axes=axes))
